@@ -174,6 +174,17 @@ func sandbox(ctx *core.Ctx, bin string) {
 		ctx.Distinct("libtable|" + t[0])
 	}
 	c.Do("EVAL", `tile38.saved = nil string.saved = nil json.x = nil math.pi = 3.141592653589793 return 1`, "0")
+	// (3d) raw writes into the globals table through the table library (the guard only sees
+	// assignments): table.insert(_G, v) makes _G[1]
+	if rep, err := c.Do("EVAL", `table.insert(_G, ARGV[1]) return 1`, "0", "secretarg"); err == nil {
+		ctx.Eval(1)
+		chk, _ := c.Do("EVAL", `return tostring(_G[1])`, "0")
+		if chk.Str != "nil" {
+			ctx.Violation("sandbox:global-created:table-insert", fmt.Sprintf("script `table.insert(_G, ARGV[1]) return 1` (reply %s) created the global slot _G[1] that later calls on the pooled state read: %q", rep.String(), chk.Str), nil)
+		}
+		c.Do("EVAL", `table.remove(_G) return 1`, "0")
+		ctx.Distinct("newglobal|table.insert")
+	}
 	// (3) new globals cannot be created
 	for _, src := range []string{`x = 1; return 1`, `_G.x2 = 1; return 1`, `_G["x3"] = 1; return 1`, `local t = _G; t.x4 = 1; return 1`, `tile38 = nil; return 1`} {
 		rep, err := c.Do("EVAL", src, "0")
